@@ -23,7 +23,7 @@ MANIFEST = {
              'HE: == symmetric, equal containers have the same hash key, the hash model hashes that key (C10_he_eq_sym, C10_he_frame_eq_hash, C10_he_series_eq_hash, '
              'C10_he_hash_model_is_key). The mask operands and include_none flags of TypeBlocks/Series/Index.equals, the equals keyword defaults and the keyword constants '
              'of SeriesHE/FrameHE.__eq__ are re-extracted from the source by ast on every run (Gen/Gen_c10.v); the theorems are stated over those generated constants '
-             '(C10_defaults_in_source, C10_masks_in_source, C10_he_options_in_source), as is the decision sequence of IndexHierarchy.equals and the fact that it never consults the cached label table (C10_hier_equals_walks_levels). No known finding remains (four were found and repaired: f01dccf, c228306, a6983c4, e1c1c73); their inputs stay as regression cases. '
+             '(C10_defaults_in_source, C10_masks_in_source, C10_he_options_in_source), as is the decision sequence of IndexHierarchy.equals and the fact that it never consults the cached label table (C10_hier_equals_walks_levels), and the decision sequences of Index/Series/Frame.equals together with the fact that no equals method looks at whether an index was auto-supplied (C10_equals_decisions_in_source). No known finding remains (four were found and repaired: f01dccf, c228306, a6983c4, e1c1c73); their inputs stay as regression cases. '
              'Correspondence: TypeBlocks.equals called directly on exhaustively enumerated small block pairs (all cell pairs of the alphabet x 1-D/2-D x skipna; all pairs of '
              'NaN masks x all pairs of layouts) and random multi-dtype tables; Frame/Series/Index/IndexHierarchy/Bus.equals, HE ==, !=, hash, set and dict membership '
              'through the public interface on pairs differing in exactly one cell, label, dtype, name, class, layout, shape or order, with NaN/None/NaT on one or both '
@@ -45,7 +45,7 @@ RULE = ('kernel stratum: TypeBlocks.equals on block pairs -- every pair of 1-col
         'every pair of NaN masks of a 1xN float row x every pair of block layouts; api strata: a base container and a variant differing in exactly one of '
         '{nothing(copy), identity, cell, one-sided missing cell, label, order, shape, dtype, name, class, block layout, index kind}, for all 16 settings of '
         '(compare_name, compare_dtype, compare_class, skipna) on a fixed family and random settings elsewhere, both directions in one case; HE stratum: ==, !=, hash, '
-        'set and dict membership; histories of IndexHierarchyGO / FrameGO with hierarchical columns (readers at random points, append/extend/add-column of same or different labels, no reader between the last growth and equals; the answer must be a function of the current labels); triples for transitivity; malformed stream: other of another kind. A case is non-trivial when the two containers are different objects; '
+        'set and dict membership; auto-supplied indexes (no index=/columns=, IndexAutoFactory, unset_index; axis-index names set with rename(index=, columns=)) against each other and against explicit indexes of the same labels for every setting of compare_name/dtype/class, HE ==/!=/hash/set, and a whole-pool matrix checked for reflexivity, symmetry, transitivity and option monotonicity; histories of IndexHierarchyGO / FrameGO with hierarchical columns (readers at random points, append/extend/add-column of same or different labels, no reader between the last growth and equals; the answer must be a function of the current labels); triples for transitivity; malformed stream: other of another kind. A case is non-trivial when the two containers are different objects; '
         'distinct = distinct (recipe pair, options).')
 ASSUMPTIONS = [
     'NumPy == on the generated scalars is Python == (True == 1 == 1.0, NaN/NaT self-unequal, None == None); integers stay below 2**53 so int/float comparison is exact',
@@ -221,6 +221,17 @@ def _hier_equals_steps(fn):
     return [t.replace('"', "'") for t in steps], reads
 
 
+def _consults_auto(fn):
+    '''does an equals method look at HOW an index came about (auto-supplied: no label map, loc_is_iloc, IndexAutoFactory)?'''
+    for n in ast.walk(fn):
+        name = n.attr if isinstance(n, ast.Attribute) else n.id if isinstance(n, ast.Name) else n.value if isinstance(n, ast.Constant) and isinstance(n.value, str) and n is not ast.get_docstring(fn) else None
+        if isinstance(name, str) and len(name) < 60:
+            low = name.lower()
+            if low in ('_map', 'static') or 'loc_is_iloc' in low or 'auto' in low:
+                return True
+    return False
+
+
 def _zero_columns_answered(fn):
     '''a top-level `if self._shape[1] == 0: return True` before the `try: eq = self == other` of TypeBlocks.equals'''
     for node in fn.body:
@@ -272,6 +283,10 @@ def generate(repo):
     if [a for a, _ in hs] != ['index']:
         raise ValueError('SeriesHE.__hash__ no longer hashes tuple(index[.values])')
     ih_steps, ih_reads_table = _hier_equals_steps(_method(ih, 'IndexHierarchy', 'equals'))
+    eq_methods = {'index': _method(ix, 'Index', 'equals'), 'series': _method(se, 'Series', 'equals'), 'frame': _method(fr, 'Frame', 'equals'),
+                  'hier': _method(ih, 'IndexHierarchy', 'equals'), 'bus': _method(bu, 'Bus', 'equals'), 'tb': _method(tb, 'TypeBlocks', 'equals')}
+    consults_auto = any(_consults_auto(f) for f in eq_methods.values())
+    steps = {k: _hier_equals_steps(eq_methods[k])[0] for k in ('index', 'series', 'frame')}
     zero_ok = _zero_columns_answered(_method(tb, 'TypeBlocks', 'equals'))
     _third_path_columnwise(_method(tb, 'TypeBlocks', '_ufunc_binary_operator'))
     lines = ['(* GENERATED on every run by tools/sfv/props/c10.py:generate from static_frame/core/{type_blocks,frame,series,index,index_hierarchy,bus}.py -- do not edit. *)',
@@ -286,6 +301,11 @@ def generate(repo):
     lines.append('(* IndexHierarchy.equals: its decisions in order, and whether it consults the cached label table (_blocks / _recache) *)')
     lines.append('Definition c10_hier_equals_steps : list string := ' + lit.lst([lit.s(t) for t in ih_steps]) + '%string.')
     lines.append(f'Definition c10_hier_reads_cached_table : bool := {_b(ih_reads_table)}.')
+    lines.append('(* Index / Series / Frame.equals: top-level decisions in order; and whether ANY equals method looks at how an index came about')
+    lines.append('   (auto-supplied: _map is None / loc_is_iloc / IndexAutoFactory) *)')
+    for k in ('index', 'series', 'frame'):
+        lines.append(f'Definition c10_{k}_equals_steps : list string := ' + lit.lst([lit.s(t) for t in steps[k]]) + '%string.')
+    lines.append(f'Definition c10_equals_consults_auto : bool := {_b(consults_auto)}.')
     lines.append('')
     lines.append('(* keyword defaults of equals: compare_name compare_dtype compare_class skipna *)')
     for k, d in defaults.items():
@@ -350,6 +370,14 @@ def build_index(rec):
         return cls.from_labels([tuple(dec(t) for t in lab) for lab in rec['labels']], name=dec(rec.get('name')))
     if rec['cls'].startswith('IndexDate'):
         return cls([dec(t) for t in rec['labels']], name=dec(rec.get('name')))
+    if rec.get('auto'):
+        # an index the library supplied itself (integers 0..n-1, no label map): taken from a Series built without index=
+        n = len(rec['labels'])
+        auto = sf.Series(np.zeros(n), index=sf.IndexAutoFactory if rec['auto'] == 'factory' else None).index
+        if auto._map is not None or auto.values.tolist() != rec['labels']:
+            raise ValueError('not an auto-supplied index')
+        out = auto.rename(dec(rec.get('name'))) if rec['cls'] == 'Index' else cls(auto, name=dec(rec.get('name')))
+        return out
     dtype = rec.get('dtype')
     labels = [dec(t) for t in rec['labels']]
     if dtype is not None:
@@ -360,18 +388,41 @@ def build_index(rec):
 def build_series(rec):
     import static_frame as sf
     cls = getattr(sf, rec['cls'])
-    return cls(col_array(rec['dtype'], rec['values']), index=build_index(rec['index']), name=dec(rec.get('name')))
+    ir = rec['index']
+    if ir.get('auto'):
+        # no index given (or IndexAutoFactory): the library supplies it; its name is set afterwards with rename(index=...)
+        out = cls(col_array(rec['dtype'], rec['values']), name=dec(rec.get('name')), **({'index': sf.IndexAutoFactory} if ir['auto'] == 'factory' else {}))
+        if ir.get('name') is not None:
+            out = out.rename(index=dec(ir['name']))
+        if out.index._map is not None or type(out) is not cls:
+            raise ValueError('not an auto-supplied index')
+        return out
+    return cls(col_array(rec['dtype'], rec['values']), index=build_index(ir), name=dec(rec.get('name')))
 
 
 def build_frame(rec):
     import static_frame as sf
     cls = getattr(sf, rec['cls'])
     cols = [col_array(d, v) for d, v in rec['cols']]
-    index = build_index(rec['index'])
-    columns = build_index(rec['columns'])
-    if rec['cls'] == 'FrameGO' and not rec['columns']['cls'].endswith('GO'):
-        pass  # the constructor converts the columns itself
-    return zoo.frame_from_columns(cols, parse_layout(rec['layout']), index=index, columns=columns, name=dec(rec.get('name')), cls=cls)
+    ir, cr = rec['index'], rec['columns']
+    index = None if ir.get('auto') else build_index(ir)
+    columns = None if cr.get('auto') else build_index(cr)
+    out = zoo.frame_from_columns(cols, parse_layout(rec['layout']), index=index, columns=columns, name=dec(rec.get('name')), cls=cls)
+    if ir.get('auto') == 'unset_index':
+        # labels of column 0 become the index and come back as column 0: the row index is then supplied by unset_index
+        c0 = out.columns.values.tolist()[0]
+        out = out.set_index(c0, drop=True).unset_index()
+        out = out if type(out) is cls else cls(out)
+    kw = {}
+    if ir.get('auto') and ir.get('name') is not None:
+        kw['index'] = dec(ir['name'])
+    if cr.get('auto') and cr.get('name') is not None:
+        kw['columns'] = dec(cr['name'])
+    if kw:
+        out = out.rename(**kw)
+    if (ir.get('auto') and out.index._map is not None) or (cr.get('auto') and out.columns._map is not None) or type(out) is not cls:
+        raise ValueError('not an auto-supplied index')
+    return out
 
 
 def build_bus(rec):
@@ -1317,6 +1368,99 @@ def history_cases(ctx):
             yield from case_list
 
 
+# ---- auto-supplied indices (no index= / columns= given, IndexAutoFactory, unset_index): an axis index the library created
+#      itself is an index like any other: its name, dtype and class count exactly when the option asks for them
+NDC_OPTS = [dict(zip(OPT_KEYS[:3], bits), skipna=True) for bits in itertools.product((False, True), repeat=3)]
+
+
+def auto_ix(n, name=None, how='default', cls='Index'):
+    return dict(ix_rec(range(n), cls=cls, name=name), auto=how)
+
+
+def _matrix_case(ctx, kind, pool, names):
+    '''equals over a whole pool for the 8 settings of (compare_name, compare_dtype, compare_class): reflexive, symmetric,
+    transitive on the implementation's own answers, and an option only ever ADDS a requirement'''
+    objs = [build(r) for r in pool]
+    n = len(objs)
+    ans = {}
+    for o in NDC_OPTS:
+        k = tuple(o[x] for x in OPT_KEYS[:3])
+        for i in range(n):
+            for j in range(n):
+                ans[k, i, j] = call_equals(kind, objs[i], objs[j], o)[0]
+    T = '(Ok true)'
+    fail = None
+    for (k, i, j), v in ans.items():
+        if i == j and v != T:
+            fail = f'not reflexive: {names[i]}.equals(itself, opts={k}) -> {v}'
+        elif v != ans[k, j, i]:
+            fail = f'not symmetric: {names[i]} vs {names[j]}, opts={k}: {v} / {ans[k, j, i]}'
+        elif v == T:
+            for l in range(n):
+                if ans[k, j, l] == T and ans[k, i, l] != T:
+                    fail = f'not transitive: {names[i]} = {names[j]} = {names[l]} but {names[i]}.equals({names[l]}) -> {ans[k, i, l]}, opts={k}'
+            for pos in range(3):
+                if k[pos]:
+                    weaker = tuple(False if q == pos else k[q] for q in range(3))
+                    if ans[weaker, i, j] != T:
+                        fail = f'an option removed a requirement: {names[i]} vs {names[j]} equal under {k} but not under {weaker}'
+        if fail:
+            break
+    ctx.count(f'auto-matrix:{kind}')
+    desc = {'call': 'x_i.equals(x_j, compare_name=, compare_dtype=, compare_class=) for all i, j and the 8 settings; x_i = sfv.props.c10.build(pool[i])',
+            'pool': dict(zip(names, pool)), 'observed_true': sorted(f'{k}:{names[i]}={names[j]}' for (k, i, j), v in ans.items() if v == T and i < j)}
+    return Case('api:auto-index-matrix', desc, py_fail=fail, tags={'kind': kind + '-auto-matrix'},
+                key=json.dumps(['auto-matrix', kind, pool], sort_keys=True, default=str))
+
+
+def auto_index_cases(ctx):
+    n = 3
+    # ---- Index
+    pool = [('auto', auto_ix(n)), ('auto-a', auto_ix(n, 'a')), ('auto-b', auto_ix(n, 'b')), ('factory-a', auto_ix(n, 'a', 'factory')),
+            ('autoGO-b', auto_ix(n, 'b', cls='IndexGO')),
+            ('explicit', ix_rec(range(n))), ('explicit-a', ix_rec(range(n), name='a')), ('explicit-f8-a', ix_rec(range(n), name='a', dtype='float64')),
+            ('explicit-obj', ix_rec(range(n), dtype='object'))]
+    for (na, ra), (nb, rb) in itertools.combinations(pool, 2):
+        if not (ra.get('auto') or rb.get('auto')):
+            continue
+        for o in (ALL_OPTS if ctx.tier == 'thorough' else NDC_OPTS):
+            yield from pair_case(ctx, 'api:auto-index', 'index', ra, rb, o, f'{na}|{nb}')
+    yield _matrix_case(ctx, 'index', [r for _, r in pool], [k for k, _ in pool])
+    # ---- Series / SeriesHE
+    vals = [5, 6, 7]
+    for cls in ('Series', 'SeriesHE'):
+        pool = [('auto', se_rec('int64', vals, index=auto_ix(n), cls=cls)), ('auto-a', se_rec('int64', vals, index=auto_ix(n, 'a'), cls=cls)),
+                ('auto-b', se_rec('int64', vals, index=auto_ix(n, 'b'), cls=cls)), ('factory-b', se_rec('int64', vals, index=auto_ix(n, 'b', 'factory'), cls=cls)),
+                ('explicit', se_rec('int64', vals, index=ix_rec(range(n)), cls=cls)), ('explicit-a', se_rec('int64', vals, index=ix_rec(range(n), name='a'), cls=cls)),
+                ('explicit-f8', se_rec('int64', vals, index=ix_rec(range(n), dtype='float64'), cls=cls))]
+        for (na, ra), (nb, rb) in itertools.combinations(pool, 2):
+            if not (ra['index'].get('auto') or rb['index'].get('auto')):
+                continue
+            if cls == 'Series':
+                for o in NDC_OPTS:
+                    yield from pair_case(ctx, 'api:auto-index', 'series', ra, rb, o, f'{na}|{nb}')
+            else:
+                yield from he_case(ctx, 'series', ra, rb, f'auto:{na}|{nb}')
+        yield _matrix_case(ctx, 'series', [r for _, r in pool], [k for k, _ in pool])
+    # ---- Frame / FrameHE (both axes)
+    cols = [('int64', [10, 11, 12]), ('int64', [4, 5, 6])]
+    for cls in ('Frame', 'FrameHE'):
+        def fr(ix, cx):
+            return fr_rec(cols, layout='2d', index=ix, columns=cx, cls=cls)
+        c2 = 2
+        pool = [('auto', fr(auto_ix(n), auto_ix(c2))), ('index-a', fr(auto_ix(n, 'a'), auto_ix(c2))), ('index-b', fr(auto_ix(n, 'b'), auto_ix(c2))),
+                ('columns-a', fr(auto_ix(n), auto_ix(c2, 'a'))), ('columns-b', fr(auto_ix(n, 'a'), auto_ix(c2, 'b'))),
+                ('unset-a', fr(auto_ix(n, 'a', 'unset_index'), ix_rec(range(c2)))),
+                ('explicit', fr(ix_rec(range(n)), ix_rec(range(c2)))), ('explicit-a', fr(ix_rec(range(n), name='a'), ix_rec(range(c2))))]
+        for (na, ra), (nb, rb) in itertools.combinations(pool, 2):
+            if cls == 'Frame':
+                for o in NDC_OPTS:
+                    yield from pair_case(ctx, 'api:auto-index', 'frame', ra, rb, o, f'{na}|{nb}')
+            else:
+                yield from he_case(ctx, 'frame', ra, rb, f'auto:{na}|{nb}')
+        yield _matrix_case(ctx, 'frame', [r for _, r in pool], [k for k, _ in pool])
+
+
 # ---- HE
 def he_observe(a, b):
     plain = True
@@ -1476,6 +1620,7 @@ def cases(ctx):
     yield from api_series_cases(ctx)
     yield from api_index_cases(ctx)
     yield from history_cases(ctx)
+    yield from auto_index_cases(ctx)
     yield from api_bus_cases(ctx)
     yield from api_he_cases(ctx)
     yield from triple_cases(ctx)
